@@ -167,3 +167,17 @@ Example C01_witness_shows_double_ownership :
   let s := run aba_sched (init 5 16 44 228 aba_progs) in
   map held (thr s) = [[0]; []; [36; 72]; [36]].
 Proof. vm_compute. reflexivity. Qed.
+
+(* ---- the manager layer above the lists: allocShmBuffer / allocShmBuffers / recycleBuffer over any
+   list of size classes, EQUAL slice sizes included (VerifyConfig accepts them), every op sequence:
+   the free lists and the held buffers always form a permutation of the initial slots — no buffer is
+   held twice, none is lost (sequential; Model/FreeListMgr.v, tied to the real bufferManager by the
+   manager harness) *)
+From Shm Require Import Model.FreeListMgr Proofs.FreeListMgrProofs.
+Theorem C01_manager_no_double_ownership : forall l ops xs m',
+  NoDup (flat_map c_free l) -> mrun {| classes := l; mheld := [] |} ops = (xs, m') ->
+  NoDup (all_slots m') /\ NoDup (map b_off (mheld m')) /\
+  (forall o, In o (map b_off (mheld m')) -> In o (flat_map c_free l)) /\
+  Permutation.Permutation (all_slots m') (flat_map c_free l).
+Proof. exact mgr_no_double_ownership. Qed.
+Print Assumptions C01_manager_no_double_ownership.
